@@ -25,7 +25,8 @@ def localOK (l : Links) (exp : GType) (dfn : Definition) (v : Value) : Bool :=
     | .variable => true
     | .list => (match exp with | .named _ _ _ => false | .list _ _ _ => true)
     | .int => defOneOf dfn [str "Int", str "Float", str "ID"] &&
-        (!defOneOf dfn [str "Int"] || parseIntErr 32 v.raw == .none)
+        (!defOneOf dfn [str "Int"] || parseIntErr 32 v.raw == .none) &&
+        (defOneOf dfn [str "Int"] || !defOneOf dfn [str "Float"] || !floatErr v.raw)
     | .float => defOneOf dfn [str "Float"] && !floatErr v.raw
     | .string => dfn.kind != .enum && defOneOf dfn [str "String", str "ID"]
     | .block => dfn.kind != .enum && defOneOf dfn [str "String", str "ID"]
